@@ -420,3 +420,10 @@ for _pid in sorted({p for _, ps in _GEN.values() for p in ps}):
             "(R-GENARG), no list/dict attribute handed over by reference to a derived object (R-SHAREMUT), no slice bound tested by "
             "truthiness (R-TRUTHYBOUND) -- whichever apply."
         )
+
+# ---------------------------------------------------------------------------------------------------------------------------
+# R-X86SIB: x86/x64 sibling functions recorded in ref/x86_siblings.json
+for _pid in ("C05", "C06", "C07", "C17"):
+    PROPS[_pid]["rules"].append((R_c06.r_x86sibling(_pid), Q))
+    PROPS[_pid]["explanation"] += " (R-X86SIB) x86/x64 sibling functions that were identical up to register names still are, when their statement structure is unchanged."
+    PROPS[_pid]["trusted_base"] = list(PROPS[_pid]["trusted_base"]) + ["ref/x86_siblings.json (inventory of the reviewed tree)"]
